@@ -14,6 +14,7 @@ import (
 	"fmt"
 	"os"
 	"sort"
+	"sync"
 	"time"
 
 	"github.com/samsarahq/thunder/batch"
@@ -83,6 +84,26 @@ func c05Run(c *Ctx, m *Model, sc c05Scenario) {
 			case "panic":
 				lastOutcome = "panic"
 				panic("many panicked")
+			case "panicerr":
+				lastOutcome = "panic"
+				panic(fmt.Errorf("many panicked with an error value"))
+			case "panicnil":
+				// a panic whose value is nil: recover() returns nil (this module's Go language version predates
+				// PanicNilError); Many has produced no results, which the batch must report as an error
+				lastOutcome = map[string]interface{}{"ok": []int{}}
+				var none interface{}
+				panic(none)
+			case "long":
+				out := make([]interface{}, 0, len(args)+1)
+				rs := []int{}
+				for i := 0; i < len(args); i++ {
+					out = append(out, c05F(in[i]))
+					rs = append(rs, c05F(in[i]))
+				}
+				out = append(out, 0)
+				rs = append(rs, 0)
+				lastOutcome = map[string]interface{}{"ok": rs}
+				return out, nil
 			case "short":
 				out := make([]interface{}, 0, len(args))
 				rs := []int{}
@@ -104,7 +125,17 @@ func c05Run(c *Ctx, m *Model, sc c05Scenario) {
 		},
 	}
 	if sc.Sharded {
-		f.Shard = func(arg interface{}) interface{} { return arg.(int) % 2 }
+		if sc.Seed%3 == 0 {
+			// shard keys of different types that print alike: they are still different shards
+			f.Shard = func(arg interface{}) interface{} {
+				if arg.(int)%2 == 0 {
+					return 7
+				}
+				return "7"
+			}
+		} else {
+			f.Shard = func(arg interface{}) interface{} { return arg.(int) % 2 }
+		}
 	}
 	key := func(arg int) int {
 		if sc.Sharded {
@@ -163,7 +194,7 @@ func c05Run(c *Ctx, m *Model, sc c05Scenario) {
 			script = script[1:]
 		}
 		if t == nil {
-			t = en[NewRand(sc.Seed + uint64(steps)*7919).Intn(len(en))]
+			t = en[NewRand(sc.Seed+uint64(steps)*7919).Intn(len(en))]
 		}
 		cl := byTask[t]
 		at := t.At
@@ -336,13 +367,15 @@ func c05Gen(r *Rand) c05Scenario {
 		sc.Args = append(sc.Args, 100+i) // distinct arguments identify callers
 	}
 	for i := 0; i < n; i++ {
-		switch r.Intn(8) {
+		switch r.Intn(10) {
 		case 0:
 			sc.Outcomes = append(sc.Outcomes, "err")
 		case 1:
-			sc.Outcomes = append(sc.Outcomes, "panic")
+			sc.Outcomes = append(sc.Outcomes, []string{"panic", "panicerr", "panicnil"}[r.Intn(3)])
 		case 2:
 			sc.Outcomes = append(sc.Outcomes, "short")
+		case 3:
+			sc.Outcomes = append(sc.Outcomes, "long")
 		default:
 			sc.Outcomes = append(sc.Outcomes, "ok")
 		}
@@ -351,6 +384,107 @@ func c05Gen(r *Rand) c05Scenario {
 		sc.CancelAt = r.Intn(6 * n)
 	}
 	return sc
+}
+
+// c05Free: callers on real goroutines, no gates: the windows between the package's hook points are open.
+// Only successful batches; every caller must get its own result, every argument must reach Many exactly once,
+// no batch may exceed MaxSize or mix shards, every call must return.
+func c05Free(c *Ctx, r *Rand, rounds int) {
+	rep := c.Rep
+	for round := 0; round < rounds && !rep.ShouldStop(); round++ {
+		maxSize := r.Intn(4)
+		sharded := r.Bool()
+		k := 2 + r.Intn(7)
+		wait := time.Duration(20+r.Intn(100)) * time.Microsecond
+		var mu sync.Mutex
+		var batches [][]int
+		f := &batch.Func{MaxSize: maxSize, WaitInterval: wait, MaxDuration: time.Hour,
+			Many: func(ctx context.Context, args []interface{}) ([]interface{}, error) {
+				in := make([]int, len(args))
+				out := make([]interface{}, len(args))
+				for i, a := range args {
+					in[i] = a.(int)
+					out[i] = c05F(in[i])
+				}
+				mu.Lock()
+				batches = append(batches, in)
+				mu.Unlock()
+				return out, nil
+			}}
+		if sharded {
+			f.Shard = func(arg interface{}) interface{} { return arg.(int) % 2 }
+		}
+		ctx := batch.WithBatching(context.Background())
+		type res struct {
+			v     interface{}
+			err   error
+			panic interface{}
+		}
+		results := make([]res, k)
+		delays := make([]time.Duration, k)
+		for i := range delays {
+			// arrivals spread around the moment the interval timer of an earlier arrival fires
+			delays[i] = time.Duration(r.Intn(3)) * wait / 2
+			if r.Bool() {
+				delays[i] += time.Duration(r.Intn(int(wait/time.Microsecond)+1)) * time.Microsecond
+			}
+		}
+		var wg sync.WaitGroup
+		for i := 0; i < k; i++ {
+			wg.Add(1)
+			go func(i int) {
+				defer wg.Done()
+				defer func() {
+					if p := recover(); p != nil {
+						results[i].panic = p
+					}
+				}()
+				time.Sleep(delays[i])
+				results[i].v, results[i].err = f.Invoke(ctx, 100+i)
+			}(i)
+		}
+		done := make(chan struct{})
+		go func() { wg.Wait(); close(done) }()
+		cs := map[string]interface{}{"free_running": true, "callers": k, "max_size": maxSize, "sharded": sharded, "wait_us": int(wait / time.Microsecond), "delays_us": delays}
+		select {
+		case <-done:
+		case <-time.After(5 * time.Second):
+			rep.Fail("impl_ne_spec", nil, cs, map[string]interface{}{"what": "free-running callers: an Invoke did not return within 5 s"})
+			return
+		}
+		mu.Lock()
+		seen := map[int]int{}
+		bad := ""
+		for _, b := range batches {
+			if maxSize > 0 && len(b) > maxSize {
+				bad = fmt.Sprintf("a batch of %d with MaxSize %d", len(b), maxSize)
+			}
+			for _, a := range b {
+				seen[a]++
+				if sharded && a%2 != b[0]%2 {
+					bad = fmt.Sprintf("a batch mixes shards: %v", b)
+				}
+			}
+		}
+		mu.Unlock()
+		for i := 0; i < k && bad == ""; i++ {
+			switch {
+			case results[i].panic != nil:
+				bad = fmt.Sprintf("Invoke(%d) panicked: %v", 100+i, results[i].panic)
+			case results[i].err != nil:
+				bad = fmt.Sprintf("Invoke(%d) failed although every batch succeeded: %v", 100+i, results[i].err)
+			case results[i].v != c05F(100+i):
+				bad = fmt.Sprintf("Invoke(%d) returned %v, its own result is %d", 100+i, results[i].v, c05F(100+i))
+			case seen[100+i] != 1:
+				bad = fmt.Sprintf("argument %d reached Many %d times", 100+i, seen[100+i])
+			}
+		}
+		if bad != "" {
+			rep.Fail("impl_ne_spec", nil, cs, map[string]interface{}{"what": "free-running callers: " + bad, "batches": batches})
+			return
+		}
+		rep.Count("free_running_rounds")
+	}
 }
 
 func runC05(c *Ctx) error {
@@ -378,8 +512,10 @@ func runC05(c *Ctx) error {
 		return nil
 	}
 	n := c.N(700, 30000)
+	free := c.Rng.Fork()
 	for i := 0; i < n && !c.Rep.ShouldStop(); i++ {
 		c05Run(c, m, c05Gen(c.Rng))
 	}
+	c05Free(c, free, c.N(4000, 60000))
 	return nil
 }
